@@ -141,8 +141,6 @@ structure Agree (env : Env) (ie : IEnv) : Prop where
   hash : ∀ k b, ie.hash k b = env.hash (hkOp k) b
   lockTime : ie.lockTime = env.nLockTime
   sequence : ie.sequence = env.nSequence
-  /-- CLTV fails on a final input (the interpreter does not check this: finding) -/
-  notFinal : env.nSequence ≠ SEQ_FINAL
   /-- CSV fails in a version-1 transaction (the interpreter does not check this: finding) -/
   version : env.txVersion ≥ 2
 
@@ -161,10 +159,14 @@ structure LockOk (env : Env) (n : Nat) : Prop where
   small : n < Script.SEQ_DISABLE
 
 theorem after_ok (ag : Agree env ie) {n : Nat}
+    (h0 : (ie.sequence == Interp.SEQ_FINAL) = false)
     (h1 : ((n < Interp.LOCKTIME_THRESHOLD && ie.lockTime < Interp.LOCKTIME_THRESHOLD)
       || (n ≥ Interp.LOCKTIME_THRESHOLD && ie.lockTime ≥ Interp.LOCKTIME_THRESHOLD)) = true)
     (h2 : n ≤ ie.lockTime) : checkLockTime env n = true := by
-  have hf := ag.notFinal
+  have hf : env.nSequence ≠ Script.SEQ_FINAL := by
+    rw [ag.sequence] at h0
+    have := beq_eq_false_iff_ne.mp h0
+    exact this
   rw [ag.lockTime] at h1 h2
   have t1 : Script.LOCKTIME_THRESHOLD = 500000000 := rfl
   have t2 : Interp.LOCKTIME_THRESHOLD = 500000000 := rfl
